@@ -89,7 +89,11 @@ Section ColumnData.
     match d with
     | Sparse m => aget m idx
     | Dense base vals pres _ =>
-        if idx <? base then None else arr_get vals pres (N.to_nat (idx - base))
+        (* idx.checked_sub(base)?; slot >= values.len() => None  (compared in N first:
+           a far-away row must not be converted to a unary number) *)
+        if idx <? base then None
+        else if nlen vals <=? idx - base then None
+        else arr_get vals pres (N.to_nat (idx - base))
     end.
 
   Definition clen (d : cdata T) : N :=
@@ -115,9 +119,10 @@ Section ColumnData.
     | Sparse m => Some (Sparse (aremove m idx))
     | Dense base vals pres count =>
         if idx <? base then Some d
+        else if nlen vals <=? idx - base then Some d
         else
           let n := N.to_nat (idx - base) in
-          if (Nat.ltb n (length vals)) && bitn pres n then
+          if bitn pres n then
             if count =? 0 then None
             else Some (Dense base (upd vals n dflt) (upd pres n false) (count - 1))
           else Some d
@@ -383,9 +388,13 @@ Inductive mop :=
 | Unfill (k start count stride : N)       (* remove_property on those rows *)
 | ClearRows (start count stride : N).     (* clear_row on those rows *)
 
+(* u64 as i64 (two's complement) *)
+Definition i64_of_u64 (n : N) : Z :=
+  if n <? 9223372036854775808 then Z.of_N n else (Z.of_N n - 18446744073709551616)%Z.
+
 Definition fill_value (vk row : N) : pv :=
   match vk with
-  | 0 => PInt (Z.of_N row)
+  | 0 => PInt (i64_of_u64 row)
   | 1 => PFloat row
   | 2 => PStr (row + 1)
   | 3 => PBool (N.even row)
